@@ -667,3 +667,35 @@ func (t *Ticker) Reset(d time.Duration) {
 		}
 	}
 }
+
+// AdvanceCoalesced is Advance, except that a periodic timer with more than
+// maxFirings due instants inside the jump is fired only at its first
+// maxFirings-1 instants and at its last due instant (assumption, stated in the
+// evidence of the checks that use it: with no other event in between, the
+// handler's effect at a later tick subsumes the skipped ones).
+func AdvanceCoalesced(d time.Duration, maxFirings int) {
+	r := active()
+	if r == nil {
+		Advance(d)
+		return
+	}
+	target := r.now + d
+	fired := map[*timer]int{}
+	for {
+		t := r.nextTimer()
+		if t == nil || t.when > target {
+			break
+		}
+		if t.period > 0 {
+			fired[t]++
+			if fired[t] == maxFirings {
+				// jump to the last due instant
+				remaining := (target - t.when) / t.period
+				t.when += remaining * t.period
+			}
+		}
+		r.fireTimer(t)
+		WaitIdle()
+	}
+	r.now = target
+}
